@@ -76,6 +76,9 @@ var guardSpecs = []guardSpec{
 	{"callDeleteServiceGuard", "pkg/controller.v1beta1/suggestion/suggestion_controller.go", "Reconcile", "r.deleteService(", srAtoms, srParams},
 	{"markSugCreatedGuard", "pkg/controller.v1beta1/suggestion/suggestion_controller.go", "Reconcile", "instance.MarkSuggestionStatusCreated(", srAtoms, srParams},
 	{"callReconcileSuggestionGuard", "pkg/controller.v1beta1/suggestion/suggestion_controller.go", "Reconcile", "r.ReconcileSuggestion(instance)", srAtoms, srParams},
+	{"expAddFinalizerGuard", "pkg/controller.v1beta1/experiment/experiment_controller_util.go", "needUpdateFinalizers", "append(pendingFinalizers, updatePrometheusMetrics)", efinAtoms, efinParams},
+	{"expRemoveFinalizerGuard", "pkg/controller.v1beta1/experiment/experiment_controller_util.go", "needUpdateFinalizers", "stmt:finalizers := []string{}", efinAtoms, efinParams},
+	{"expCallUpdateFinalizersGuard", "pkg/controller.v1beta1/experiment/experiment_controller.go", "Reconcile", "r.updateFinalizers(instance, finalizers)", expAtoms, expParams},
 	{"sugRestartGuard", "pkg/controller.v1beta1/experiment/experiment_controller_util.go", "restartSuggestion", "original.DeepCopy()",
 		map[string]string{"err != nil": "getFailed", "errors.IsNotFound(err)": "notFound", "original.IsCompleted()": "sugCompleted", "original.IsRestarting()": "sugRestarting", "original.IsSucceeded()": "sugSucceeded", "instance.IsRestarting()": "expRestarting"},
 		[]string{"getFailed", "notFound", "sugCompleted", "sugRestarting", "sugSucceeded", "expRestarting"}},
@@ -168,6 +171,12 @@ var srAtoms = map[string]string{
 	"instance.Status.StartTime == nil": "startUnset",
 }
 var srParams = []string{"failed1", "failed2", "failed3", "failed4", "notFound", "succeeded", "created", "startUnset"}
+
+var efinAtoms = map[string]string{
+	"exp.ObjectMeta.DeletionTimestamp.IsZero()": "(!deleting)", "contained": "hasFinalizer",
+	"elem == updatePrometheusMetrics": "isKatibFinalizer", "pendingFinalizer != updatePrometheusMetrics": "(!isKatibFinalizer)",
+}
+var efinParams = []string{"deleting", "hasFinalizer", "isKatibFinalizer"}
 
 var verdictAtoms = map[string]string{
 	"jobStatus.Condition == trialutil.JobSucceeded": "jobSucceeded", "jobStatus.Condition == trialutil.JobFailed": "jobFailed",
